@@ -1,4 +1,5 @@
 import Rustic.Model.Pack
+import Rustic.Model.Index
 import Driver.Util
 import Driver.C17
 /- Driver channel `c08` — see harness/src/c08.rs for the op-line grammar and the observation formats. -/
@@ -58,6 +59,85 @@ def errStr : FileErr → String
   | .decrypt => "err:Cryptography"
   | _ => "err:Internal"
 
+/-- one stored pack of a `rix` case: label, blobs of its header, stored size, header readable? -/
+structure RixPack where
+  label : String
+  blobs : List IndexBlob
+  size : Nat
+  readable : Bool
+
+def parseRixPack (s : String) : Option RixPack :=
+  match s.splitOn ":" with
+  | [label, t, adds, flag] =>
+    let t? := if t = "t" then some BlobType.tree else if t = "d" then some BlobType.data else none
+    let adds? := if adds = "-" then some [] else (adds.splitOn "+").mapM parseAdd
+    let flag? := if flag = "ok" then some true else if flag = "trunc" then some false else none
+    match t?, adds?, flag? with
+    | some t, some adds, some ok =>
+      if label.isEmpty ∨ !label.toList.all (fun c => 'a' ≤ c ∧ c ≤ 'z') then none else
+      let blobs := ((Packer.new t).run adds).blobs
+      some { label := label, blobs := blobs, size := if ok then packSize blobs else packSize blobs - 1, readable := ok }
+    | _, _, _ => none
+  | _ => none
+
+def rixEntry (ps : List RixPack) (e : String) : Option Rustic.Index.IndexPack :=
+  if e.startsWith "?" then
+    match (e.drop 1).toString.toNat? with
+    | some k => if k < 256 then some { id := 1000 + k, blobs := [], size := none } else none
+    | none => none
+  else
+    let cut := e.endsWith "~"
+    let label := if cut then (e.dropEnd 1).toString else e
+    match ps.findIdx? (fun p => p.label = label) with
+    | none => none
+    | some i =>
+      match ps[i]? with
+      | none => none
+      | some p =>
+        if cut then
+          if p.blobs.isEmpty then none else some { id := i, blobs := p.blobs.dropLast, size := none }
+        else some { id := i, blobs := p.blobs, size := none }
+
+def rixFile (ps : List RixPack) (s : String) : Option Rustic.Index.IndexFile :=
+  match s.splitOn "|" with
+  | [a, b] =>
+    let list (x : String) := if x = "-" then some [] else (x.splitOn ",").mapM (rixEntry ps)
+    match list a, list b with
+    | some a, some b => if a.isEmpty ∧ b.isEmpty then none else some { packs := a, packsToDelete := b }
+    | _, _ => none
+  | _ => none
+
+def noDupStr : List String → Bool
+  | [] => true
+  | a :: t => !t.contains a && noDupStr t
+
+def rixObs (readAll : Bool) (packs files : String) : String :=
+  let ps? := if packs = "-" then some [] else (packs.splitOn ";").mapM parseRixPack
+  match ps? with
+  | none => "bad-op"
+  | some ps =>
+    if !noDupStr (ps.map (·.label)) then "bad-op" else
+    let ftoks := if files = "-" then [] else files.splitOn "/"
+    if !noDupStr ftoks then "bad-op" else
+    match ftoks.mapM (rixFile ps) with
+    | none => "bad-op"
+    | some fs =>
+      let store := ps.zipIdx.map fun (p, i) => (i, p.size)
+      let readHeader (id : Nat) (_hint : Option Nat) (size : Nat) : Option (List IndexBlob) :=
+        match ps[id]? with
+        | some p => if p.readable ∧ size = p.size then some p.blobs else none
+        | none => none
+      let r := Rustic.Index.repairIndex readHeader store fs readAll
+      let listings (i : Nat) (marked : Bool) : List Rustic.Index.IndexPack :=
+        r.flatMap fun f => (if marked then f.packsToDelete else f.packs).filter fun p => p.id = i
+      let per := ps.zipIdx.map fun (p, i) =>
+        let u := listings i false
+        let m := listings i true
+        let ok := (u ++ m).all fun q => q.blobs = p.blobs
+        s!"{p.label}:u{u.length}m{m.length}{if ok then "=" else "x"}"
+      let unknown := (r.flatMap fun f => (f.packs ++ f.packsToDelete).filter fun p => p.id ≥ 1000).length
+      s!"ok {if per.isEmpty then "-" else ",".intercalate per} ?{unknown}"
+
 def handle : List String → String
   | ["hdr", blobs] =>
     match (if blobs = "-" then some [] else (blobs.splitOn "+").mapM Driver.C17.parseBlob) with
@@ -93,6 +173,8 @@ def handle : List String → String
         s!"{(Driver.C17.hexId b.id).take 8}.{tStr b.tpe}.{b.loc.offset}.{b.loc.length}.{ulenStr b.loc.ulen}"
       s!"ok blobs={if bl.isEmpty then "-" else ",".intercalate bl} len={n} ff={",".intercalate ff}"
     | _, _, _ => "bad-op"
+  | ["rix", ra, packs, files] =>
+    if ra = "0" then rixObs false packs files else if ra = "1" then rixObs true packs files else "bad-op"
   | ["repo", variant, seed] =>
     if ["backup", "prune-fast", "prune-copy", "prune-all", "copy"].contains variant ∧ seed.toNat?.isSome then "ok" else "bad-op"
   | ["repair", variant, seed] =>
